@@ -129,6 +129,11 @@ func (dps *DefaultPathStrategy) GetRequestInfo(urlCtx base.UrlContext, rootOutPa
 		ri.FileNameWithPath = filepath.Join(rootOutPath, ri.StreamName, filename)
 	}
 
+	// 流名称作为<rootOutPath>下的一级目录名使用，不能让请求跳出<rootOutPath>，比如 /hls/...m3u8 /hls/..-1-2.ts
+	if !StreamNameIsSafePathElement(ri.StreamName) {
+		return RequestInfo{}
+	}
+
 	return
 }
 
@@ -151,6 +156,14 @@ func (*DefaultPathStrategy) GetTsFileNameWithPath(outPath string, fileName strin
 
 func (*DefaultPathStrategy) GetTsFileName(streamName string, index int, timestamp int) string {
 	return fmt.Sprintf("%s-%d-%d.ts", streamName, timestamp, index)
+}
+
+// StreamNameIsSafePathElement
+//
+// 流名称会被用作输出目录下的一级目录名（hls）或文件名的前缀（录制文件），
+// 因此不能为空，不能是"."或".."，不能包含路径分隔符，否则生成的路径会落到配置的输出目录之外
+func StreamNameIsSafePathElement(streamName string) bool {
+	return streamName != "" && streamName != "." && streamName != ".." && !strings.ContainsAny(streamName, "/\\")
 }
 
 func (*DefaultPathStrategy) getStreamNameFromTsFileName(fileName string) string {
